@@ -21,7 +21,7 @@ import (
 //     dependency loader, and the name starts with M.
 //
 // classes: missing-with-definition (a definition made between lookups), has-without-file, has-misses-file, discover-mismatch (HasEntry / Discover of a file loader against the derived paths), found-without-file, missing-with-file, case-sensitive, wrong-name, parsed-twice, absent-side-effect,
-// error-not-located, definition-not-from-file, unstable, fault; misnamed-no-line and duplicate-redefine (known findings) are
+// error-not-located, error-unprintable, definition-not-from-file, unstable, fault; misnamed-no-line and duplicate-redefine (known findings) are
 // failures of the `strict` op only.
 
 type cand struct {
@@ -164,7 +164,7 @@ func (c cand) kindFor(key []string) string {
 		}
 	}
 	switch b.kind {
-	case "object":
+	case "object", "bareobject", "barehash":
 		return "o"
 	case "typeset":
 		return "s"
@@ -188,7 +188,7 @@ func (b body) defines(key []string) bool {
 	switch b.kind {
 	case "alias", "object", "typeset":
 		return keyEq(lowerSegs(strings.Split(b.name, "::")), key)
-	case "bare":
+	case "bare", "bareobject", "barehash":
 		return true
 	}
 	return false
@@ -345,11 +345,53 @@ func (o *oracle) closure(key []string) (map[string]*file, [][]string) {
 					visit(append(append([]string{}, base...), strings.ToLower(t)))
 				}
 			}
+			// op xref: the definitions this one refers to are loaded (through the context's loader) when it is resolved
+			for _, r := range c.f.body.refs {
+				visit(lowerSegs(strings.Split(r, "::")))
+			}
+			for _, r := range c.f.body.tsrefs {
+				rk := lowerSegs(strings.Split(r.set, "::"))
+				visit(rk)
+				if r.member != "" {
+					visit(append(append([]string{}, rk...), strings.ToLower(r.member)))
+				}
+			}
 		}
 		visit(k[:len(k)-1])
 	}
 	visit(key)
 	return files, keys
+}
+
+// danglingTsref: does a type-set file among `files` refer (references => …) to a name whose effective definition is not a
+// good type-set file?  badType: … to a name that has a good file which defines something that is no type set
+func (o *oracle) danglingTsref(files map[string]*file, badType bool) bool {
+	for _, f := range files {
+		for _, r := range f.body.tsrefs {
+			rk := lowerSegs(strings.Split(r.set, "::"))
+			var eff *cand
+			for _, c := range o.candidates(rk) {
+				if code, _ := o.defect(c.f, c.path); code == "" {
+					c := c
+					eff = &c
+					break
+				}
+			}
+			if badType {
+				if eff != nil && eff.f.body.kind != "typeset" {
+					return true
+				}
+				if eff == nil && len(o.providers(rk)) > 0 {
+					return true // a member of another type set
+				}
+			} else if eff == nil || eff.f.body.kind != "typeset" {
+				return true
+			} else if cl, _ := o.closure(rk); cl[o.paths[f]] != nil {
+				return true // the referenced type set leads back to the referring one: it cannot be had while that one is loaded
+			}
+		}
+	}
+	return false
 }
 
 // defect of a file with respect to the name its path implies: the issue code a load of it must report ("" = none)
@@ -594,6 +636,10 @@ func judge(s spec, outs []outcome, total map[string]int, out string, strict bool
 			note("fault", "lookup of "+l.name+" ended in a runtime fault")
 			continue
 		}
+		if oc.kind == "unprintable" {
+			note("error-unprintable", fmt.Sprintf("lookup of %s raised %s, an error whose message cannot be formatted (Error() panics)", l.name, oc.code))
+			continue
+		}
 		if len(key) == 1 && staticNames[key[0]] {
 			continue
 		}
@@ -709,7 +755,7 @@ func judge(s spec, outs []outcome, total map[string]int, out string, strict bool
 					switch c.f.body.kind {
 					case "alias", "object":
 						exact = exact || c.f.body.name == strings.TrimPrefix(l.name, "::")
-					case "bare":
+					case "bare", "bareobject", "barehash":
 						exact = true
 					default:
 						exact = exact || len(provs) == 0 && c.f.body.name == strings.TrimPrefix(l.name, "::")
@@ -730,6 +776,7 @@ func judge(s spec, outs []outcome, total map[string]int, out string, strict bool
 				answers[id] = "notfound"
 			}
 		case "reported":
+			prevReported := anyReported
 			anyReported = true
 			switch {
 			case oc.code == "PCORE_INVALID_CHARACTERS_IN_NAME":
@@ -746,6 +793,34 @@ func judge(s spec, outs []outcome, total map[string]int, out string, strict bool
 					note("duplicate-redefine", fmt.Sprintf("%s: a name with two definitions (files below two loaders, or a file and a type-set member) is reported as a redefinition", l.name))
 				} else {
 					note("error-not-located", fmt.Sprintf("%s: redefinition reported without a duplicate definition", l.name))
+				}
+			case oc.code == "PCORE_TYPESET_REFERENCE_UNRESOLVED" || oc.code == "PCORE_TYPESET_REFERENCE_BAD_TYPE":
+				// op xref: some type set on the search route refers to a type set that cannot be had: no file, a defective
+				// file (reported by an earlier lookup), or a file that defines something else
+				// (after an error the type set whose load was interrupted keeps its placeholder: nothing is demanded then)
+				if !prevReported && !o.danglingTsref(clos, oc.code == "PCORE_TYPESET_REFERENCE_BAD_TYPE") {
+					note("error-not-located", fmt.Sprintf("%s: %s although every referenced type set on the route has a good file", l.name, oc.code))
+				}
+			case oc.code == "PCORE_TYPESET_REFERENCE_MISMATCH" || oc.code == "PCORE_TYPESET_REFERENCE_OVERLAP":
+				// op xref: a type set on the route asks for version 2.x of a type set (all have 1.0.0), or refers to one type
+				// set twice
+				ok := prevReported
+				for _, f := range clos {
+					for i, r := range f.body.tsrefs {
+						if oc.code == "PCORE_TYPESET_REFERENCE_MISMATCH" && r.major == 2 {
+							ok = true
+						}
+						for j := 0; j < i; j++ {
+							p := f.body.tsrefs[j]
+							// (the semver module answers a non-nil Intersection for the disjoint ranges 1.x and 2.x as well)
+							if oc.code == "PCORE_TYPESET_REFERENCE_OVERLAP" && p.set == r.set {
+								ok = true
+							}
+						}
+					}
+				}
+				if !ok {
+					note("error-not-located", fmt.Sprintf("%s: %s although no type set on the route has such a reference", l.name, oc.code))
 				}
 			case oc.code == "PCORE_NOT_EXPECTED_TYPESET":
 				f, ok := clos[oc.file]
